@@ -107,7 +107,8 @@ class FakeProcess:
         w.procs[self.pid] = self
         w.rec("start", slot=self._slot(), pid=self.pid)
         ticks = w.scn["ticks"]
-        if 1 <= w.tick <= len(ticks) and self._slot() in ticks[w.tick - 1].get("boot", []):
+        if (w.tick == 0 and self._slot() in w.scn["cfg"].get("boot0", [])) or \
+                (1 <= w.tick <= len(ticks) and self._slot() in ticks[w.tick - 1].get("boot", [])):
             # the replacement crashes while booting: dead before the manager looks at it for the first time
             self.alive = False
             self.exit_status = 1
